@@ -5,7 +5,7 @@ open I18n.Mo.Spec
 
 /-! ### slices -/
 
-theorem Slice.length_le {b : Bytes} {off : Nat} {s : Bytes} (h : Slice b off s) : off + s.length ≤ b.length := by
+theorem Spec.Slice.length_le {b : Bytes} {off : Nat} {s : Bytes} (h : Slice b off s) : off + s.length ≤ b.length := by
   obtain ⟨pre, post, rfl, rfl⟩ := h
   simp only [List.length_append]; omega
 
@@ -27,7 +27,7 @@ theorem Slice_of_slice {b : Bytes} {off n : Nat} (h : off + n ≤ b.length) :
   · simp; omega
   · simp [slice]; omega
 
-theorem Slice.append {b : Bytes} {off : Nat} {s t : Bytes} (h1 : Slice b off s) (h2 : Slice b (off + s.length) t) :
+theorem Spec.Slice.append {b : Bytes} {off : Nat} {s t : Bytes} (h1 : Slice b off s) (h2 : Slice b (off + s.length) t) :
     Slice b off (s ++ t) := by
   obtain ⟨p1, q1, e1, l1⟩ := h1
   obtain ⟨p2, q2, e2, l2⟩ := h2
@@ -36,15 +36,15 @@ theorem Slice.append {b : Bytes} {off : Nat} {s t : Bytes} (h1 : Slice b off s) 
   obtain ⟨ha, hb⟩ := List.append_inj e hl
   exact ⟨p1, q2, by rw [e1, hb]; simp [List.append_assoc], l1⟩
 
-theorem Slice.left {b : Bytes} {off : Nat} {s t : Bytes} (h : Slice b off (s ++ t)) : Slice b off s := by
+theorem Spec.Slice.left {b : Bytes} {off : Nat} {s t : Bytes} (h : Slice b off (s ++ t)) : Slice b off s := by
   obtain ⟨p, q, e, l⟩ := h
   exact ⟨p, t ++ q, by rw [e]; simp [List.append_assoc], l⟩
 
-theorem Slice.right {b : Bytes} {off : Nat} {s t : Bytes} (h : Slice b off (s ++ t)) : Slice b (off + s.length) t := by
+theorem Spec.Slice.right {b : Bytes} {off : Nat} {s t : Bytes} (h : Slice b off (s ++ t)) : Slice b (off + s.length) t := by
   obtain ⟨p, q, e, l⟩ := h
   exact ⟨p ++ s, q, by rw [e]; simp [List.append_assoc], by simp [l]⟩
 
-theorem Slice.unique {b : Bytes} {off : Nat} {s t : Bytes} (h1 : Slice b off s) (h2 : Slice b off t)
+theorem Spec.Slice.unique {b : Bytes} {off : Nat} {s t : Bytes} (h1 : Slice b off s) (h2 : Slice b off t)
     (hl : s.length = t.length) : s = t := by
   obtain ⟨p1, q1, e1, l1⟩ := h1
   obtain ⟨p2, q2, e2, l2⟩ := h2
@@ -52,13 +52,13 @@ theorem Slice.unique {b : Bytes} {off : Nat} {s t : Bytes} (h1 : Slice b off s) 
   obtain ⟨_, hb⟩ := List.append_inj e (by rw [l1, l2])
   exact (List.append_inj hb hl).1
 
-theorem Slice.getElem? {b : Bytes} {off : Nat} {s : Bytes} (h : Slice b off s) (i : Nat) (hi : i < s.length) :
+theorem Spec.Slice.getElem? {b : Bytes} {off : Nat} {s : Bytes} (h : Slice b off s) (i : Nat) (hi : i < s.length) :
     b[off + i]? = s[i]? := by
   obtain ⟨p, q, rfl, rfl⟩ := h
   rw [List.append_assoc, List.getElem?_append_right (by omega)]
   simp [List.getElem?_append_left hi]
 
-theorem Slice.prefix_iff {b s : Bytes} : Slice b 0 s ↔ s <+: b := by
+theorem Spec.Slice.prefix_iff {b s : Bytes} : Slice b 0 s ↔ s <+: b := by
   constructor
   · rintro ⟨p, q, e, l⟩
     have : p = [] := List.eq_nil_of_length_eq_zero l
@@ -101,8 +101,8 @@ theorem unpack_encodeWord2 (be : Bool) (v w : Nat) (hv : v < 2 ^ 32) (hw : w < 2
     (congr 2; · omega
      congr 1; omega)
 
-theorem WordAt.unique {be : Bool} {b : Bytes} {off v w : Nat} (h1 : WordAt be b off v) (h2 : WordAt be b off w) : v = w := by
-  have e := Slice.unique h1.2 h2.2 (by rw [encodeWord_length, encodeWord_length])
+theorem Spec.WordAt.unique {be : Bool} {b : Bytes} {off v w : Nat} (h1 : WordAt be b off v) (h2 : WordAt be b off w) : v = w := by
+  have e := Spec.Slice.unique h1.2 h2.2 (by rw [encodeWord_length, encodeWord_length])
   have a := unpack_encodeWord be v h1.1
   rw [e, unpack_encodeWord be w h2.1] at a
   cases a; rfl
@@ -113,7 +113,7 @@ theorem Slice_singleton {b : Bytes} {i : Nat} {c : UInt8} (h : b[i]? = some c) :
     · exact h'
     · rw [List.getElem?_eq_none h'] at h; cases h
   obtain ⟨hs, hl⟩ := Slice_of_slice (b := b) (off := i) (n := 1) (by omega)
-  have h1 := Slice.getElem? hs 0 (by omega)
+  have h1 := Spec.Slice.getElem? hs 0 (by omega)
   rw [Nat.add_zero, h] at h1
   match hx : slice b i (i + 1), hl, h1 with
   | [x], _, h1 =>
